@@ -9,6 +9,7 @@
 package v2sim
 
 import (
+	"math/big"
 	"bytes"
 	"crypto/sha256"
 	"encoding/binary"
@@ -250,6 +251,21 @@ func (s *sim) plan() {
 				}
 			}
 			e.pkts = append(e.pkts, pkt{contents: s.contents(x, i, n), ignore: b[3] >= 218})
+		}
+		if np > 0 && c.Bool(150, "pkt.reserved") {
+			// (a peer from the future: reserved header bits set)
+			i := c.Intn(np, "pkt.reserved.idx")
+			e.pkts[i].reserved = byte(1 + c.Intn(127, "pkt.reserved.bits"))
+			if !e.isReal {
+				r.Probe("reference packet with reserved header bits")
+			}
+		}
+		if np > 0 && c.Bool(40, "pkt.oversize") {
+			i := c.Intn(np, "pkt.oversize.idx")
+			e.pkts[i].oversizeFirst = true
+			if e.isReal {
+				r.Probe("oversize packet refused before a normal one")
+			}
 		}
 		if huge && x == c.Intn(2, "huge.side") && np > 0 {
 			i := c.Intn(np, "huge.idx")
@@ -727,6 +743,7 @@ func (s *sim) planFault(realSide int) {
 
 func (s *sim) ellswiftChecks() {
 	r, c := s.r, s.r.C
+	defer s.unreducedChecks()
 	// (1) EllswiftCreate: the encoding decodes to the key's x coordinate,
 	// and both sides of an exchange compute the same secret.
 	privA, encA, err := ellswift.EllswiftCreate()
@@ -821,6 +838,69 @@ func (s *sim) ellswiftChecks() {
 		}
 		break
 	}
+}
+
+// unreducedChecks: an encoding half may be any 256-bit number; values of p
+// and above stand for their residue.  ECDH on such an encoding must equal the
+// x coordinate of priv * lift(XSwiftEC(u mod p, t mod p)), computed here from
+// the definition with plain big-number reduction.
+func (s *sim) unreducedChecks() {
+	r, c := s.r, s.r.C
+	priv, _, err := ellswift.EllswiftCreate()
+	if err != nil {
+		panic(err)
+	}
+	P := new(big.Int).SetBytes(fieldP())
+	half := func(tag string) (enc [32]byte, red btcec.FieldVal) {
+		v := new(big.Int)
+		switch simkit.Pick(c, tag, 3, 3, 1, 1) {
+		case 0: // small + p
+			v.SetInt64(int64(1 + c.Intn(1<<30, tag+".small")))
+			v.Add(v, P)
+		case 1: // a reduced random value
+			v.SetBytes(c.Bytes(32, tag+".rnd"))
+			v.Mod(v, P)
+		case 2: // exactly p
+			v.Set(P)
+		default: // 2^256-1
+			v.Lsh(big.NewInt(1), 256).Sub(v, big.NewInt(1))
+		}
+		v.FillBytes(enc[:])
+		var rb [32]byte
+		new(big.Int).Mod(v, P).FillBytes(rb[:])
+		red.SetBytes(&rb)
+		red.Normalize()
+		return
+	}
+	ue, uf := half("es.unred.u")
+	te, tf := half("es.unred.t")
+	var enc [64]byte
+	copy(enc[:32], ue[:])
+	copy(enc[32:], te[:])
+	x, err := ellswift.XSwiftEC(&uf, &tf)
+	if err != nil {
+		return
+	}
+	x.Normalize()
+	var y2, y btcec.FieldVal
+	y2.SquareVal(x).Mul(x).AddInt(7).Normalize()
+	if !y.SquareRootVal(&y2) {
+		r.Violate(propID, "xswiftec-on-curve", "", "XSwiftEC(u=%x, t=%x) = %x is not the x coordinate of a curve point", uf.Bytes()[:], tf.Bytes()[:], x.Bytes()[:])
+		return
+	}
+	y.Normalize()
+	var pt, res btcec.JacobianPoint
+	pt.X.Set(x)
+	pt.Y.Set(&y)
+	pt.Z.SetInt(1)
+	btcec.ScalarMultNonConst(&priv.Key, &pt, &res)
+	res.ToAffine()
+	want := res.X.Bytes()
+	got, gerr := ellswift.EllswiftECDHXOnly(enc, priv)
+	if gerr != nil || !bytes.Equal(got[:], want[:]) {
+		r.Violate(propID, "ellswift-unreduced-halves", "", "EllswiftECDHXOnly on the encoding u=%x t=%x gives %x (err=%v); by the definition (halves reduced mod p) it is %x", ue[:], te[:], got[:], gerr, want[:])
+	}
+	r.Count("ecdh_on_unreduced_encodings", 1)
 }
 
 func (s *sim) checkDecode(who string, priv *btcec.PrivateKey, enc [64]byte) {
@@ -1336,7 +1416,11 @@ func (s *sim) judgeKeysAndCiphertext(dEff [2]int) {
 			if sr.kind != 'a' {
 				continue
 			}
-			exp = append(exp, sess.Send.EncPacket(sr.contents, e.pkts[sr.idx].aad, sr.ignore)...)
+			rsv := byte(0)
+			if !e.isReal {
+				rsv = e.pkts[sr.idx].reserved
+			}
+			exp = append(exp, sess.Send.EncPacketReserved(sr.contents, e.pkts[sr.idx].aad, sr.ignore, rsv)...)
 			bounds = append(bounds, len(exp))
 		}
 		if !bytes.Equal(exp, raw) {
